@@ -150,7 +150,10 @@ def newton_raphson_solve_s(P1, S, FFp, s1=0.0,
         # while allowing those which have not yet converged to progress,
         # over "time," the iterations of Newton-Raphson will speed up, in terms
         # of wall clock time.
-        rays_which_converged = (delta < eps)
+        # eps is an absolute step for path lengths up to 1; a longer path (deep
+        # sag, grazing incidence) cannot resolve it in floating point and the
+        # ray would never be declared converged, so scale eps with |s|
+        rays_which_converged = (delta < eps * np.maximum(1, abs(sjp1)))
         sj[mask] = sjp1
         insert_mask = mask[rays_which_converged]
         if insert_mask.size != 0:
